@@ -89,3 +89,24 @@ pub proof fn lemma_bit_andnot_all()
         lemma_bit_andnot(x, y);
     }
 }
+/// bit semantics of `&` and `|`, for all operands (applies to unnamed intermediate values)
+pub proof fn lemma_bit_ops_all()
+    ensures
+        forall|x: u64, y: u64, t: u32| t < 64 ==> (#[trigger] bit_set(x & y, t) == (bit_set(x, t) && bit_set(y, t))),
+        forall|x: u64, y: u64, t: u32| t < 64 ==> (#[trigger] bit_set(x | y, t) == (bit_set(x, t) || bit_set(y, t))),
+{
+    assert forall|x: u64, y: u64, t: u32| t < 64 implies (#[trigger] bit_set(x & y, t) == (bit_set(x, t) && bit_set(y, t))) by { lemma_bit_and(x, y); }
+    assert forall|x: u64, y: u64, t: u32| t < 64 implies (#[trigger] bit_set(x | y, t) == (bit_set(x, t) || bit_set(y, t))) by { lemma_bit_or(x, y); }
+}
+/// the e.p. mask of pawn_attacks: the e.p. square, unless it is "no square" (= a8, on rank 8)
+pub proof fn lemma_ep_mask_bits(ep: u32)
+    requires ep < 64
+    ensures forall|t: u32| t < 64 ==> (#[trigger] bit_set((1u64 << ep) & !(RANK_1_OCCUPANCY | RANK_8_OCCUPANCY), t) == (t == ep && 8 <= ep && ep < 56))
+{
+    assert(RANK_8_OCCUPANCY == 0xff) by(compute);
+    assert(RANK_1_OCCUPANCY == 0xff00000000000000) by(compute);
+    assert forall|t: u32| t < 64 implies (#[trigger] bit_set((1u64 << ep) & !(RANK_1_OCCUPANCY | RANK_8_OCCUPANCY), t) == (t == ep && 8 <= ep && ep < 56)) by {
+        let (a, b) = (ep as u64, t as u64);
+        assert((((((1u64 << a) & !(0xff00000000000000u64 | 0xffu64)) >> b) & 1) == 1) == (b == a && 8 <= a && a < 56)) by(bit_vector) requires a < 64, b < 64;
+    }
+}
